@@ -8,13 +8,11 @@
 package main
 
 import (
-	"bufio"
 	"bytes"
 	"encoding/json"
 	"fmt"
 	"math/big"
 	"os"
-	"os/exec"
 	"sync"
 	"time"
 
@@ -510,81 +508,12 @@ func main() {
 	run.Finish()
 }
 
-// schedPart runs the scheduler-variant binary (C12_SCHED_BIN, built by bin/check with the
-// instrumentation overlay): concurrent FIRST use of the lazily cached public key of one private-key
-// object, all schedules within the preemption bound; every call must return what it returns alone.
+// schedPart: concurrent FIRST use of the lazily cached public key of one private-key object, all
+// schedules within the preemption bound; every call must return what it returns alone (cmd/c12s).
 func schedPart() {
-	bin := os.Getenv("C12_SCHED_BIN")
-	if bin == "" {
-		run.Set("concurrent_first_use", "not run (C12_SCHED_BIN not set: use bin/check)")
-		return
-	}
-	const nw = 16
-	outs := make([][]byte, nw)
-	errs := make([]error, nw)
-	var wg sync.WaitGroup
-	for k := 0; k < nw; k++ {
-		wg.Add(1)
-		go func(k int) {
-			defer wg.Done()
-			cmd := exec.Command(bin, run.Tier, fmt.Sprint(k), fmt.Sprint(nw))
-			cmd.Env = append(os.Environ(), "GOMAXPROCS=2")
-			cmd.Stderr = os.Stderr
-			outs[k], errs[k] = cmd.Output()
-		}(k)
-	}
-	wg.Wait()
-	var out []byte
-	for k := range outs {
-		if errs[k] != nil {
-			run.Fatal("scheduler part of C12 failed (worker %d): %v", k, errs[k])
-		}
-		out = append(out, outs[k]...)
-	}
-	var progs, execs, points, replayed int64
-	sc := bufio.NewScanner(bytes.NewReader(out))
-	sc.Buffer(make([]byte, 1<<22), 1<<22)
-	for sc.Scan() {
-		var r struct {
-			Desc       string `json:"desc"`
-			Execs      int64  `json:"execs"`
-			Points     int64  `json:"points"`
-			Bound      int    `json:"bound"`
-			Replayed   int64  `json:"replayed"`
-			Capped     bool   `json:"capped"`
-			Violations []struct {
-				Key  string `json:"key"`
-				What string `json:"what"`
-			} `json:"violations"`
-		}
-		line := append([]byte{}, sc.Bytes()...)
-		if json.Unmarshal(line, &r) != nil || r.Desc == "" {
-			continue
-		}
-		progs++
-		execs += r.Execs
-		points += r.Points
-		replayed += r.Replayed
-		if r.Capped {
-			run.MarkCapped()
-		}
-		run.Distinct("sched/" + r.Desc)
-		var full struct {
-			Violations []json.RawMessage `json:"violations"`
-		}
-		_ = json.Unmarshal(line, &full)
-		for i, v := range r.Violations {
-			var rp any
-			_ = json.Unmarshal(full.Violations[i], &rp)
-			run.Violation(v.Key, r.Desc+": "+v.What, rp)
-		}
-		if r.Desc == "BLS generated: [PublicKey().Encode()] || [BLSGeneratePOP(sk)]" {
-			run.Sample(map[string]any{"kind": "concurrent first use", "program": r.Desc, "schedules": r.Execs, "scheduling_points": r.Points, "preemption_bound": r.Bound})
-		}
-	}
-	run.Add("evaluations", execs)
-	run.Set("concurrent_first_use", map[string]any{"programs": progs, "schedules_explored": execs, "scheduling_points": points, "schedules_replayed_for_determinism": replayed,
-		"rule": "two threads share ONE private-key object (BLS generated / decoded / aggregated, ECDSA on both curves) whose PublicKey() was never called; all unordered pairs of {PublicKey().Encode(), PublicKey().EncodeCompressed(), PublicKey().Equals(PublicKey()), Encode(), BLSGeneratePOP, Sign+PublicKey().Verify}; all schedules with <= 2 (thorough 3) preemptions over the statement-level scheduling points of the instrumented library; every call returns what it returns alone"})
+	run.SchedPart("C12_SCHED_BIN", "concurrent_first_use",
+		"two threads share ONE private-key object (BLS generated / decoded / aggregated, ECDSA on both curves) whose PublicKey() was never called; all unordered pairs of {PublicKey().Encode(), PublicKey().EncodeCompressed(), PublicKey().Equals(PublicKey()), Encode(), BLSGeneratePOP, Sign+PublicKey().Verify}; all schedules with <= 2 (thorough 3) preemptions over the statement-level scheduling points of the instrumented library; every call returns what it returns alone",
+		"BLS generated: [PublicKey().Encode()] || [BLSGeneratePOP(sk)]")
 }
 
 func doReplay() {
@@ -594,12 +523,7 @@ func doReplay() {
 	}
 	if bytes.Contains(b, []byte("publickey-first-use")) {
 		// a schedule of the concurrent-first-use part: replayed by the scheduler-variant binary
-		cmd := exec.Command(os.Getenv("C12_SCHED_BIN"), "--replay", run.Replay)
-		cmd.Stdout, cmd.Stderr = os.Stdout, os.Stderr
-		if err := cmd.Run(); err != nil {
-			os.Exit(1)
-		}
-		os.Exit(0)
+		ev.SchedReplay("C12_SCHED_BIN", run.Replay)
 	}
 	var f struct {
 		Replay replay `json:"replay"`
